@@ -33,6 +33,16 @@ CHECKS['C09'] = dict(
          "alpha-renamed programs. The analyser side (names bound to locals, then fields) is taken as documented.",
     tech="static analysis: structural loop-bound matching + RAII guard recognition + dominance in frame-entry functions + who-writes")
 
+CHECKS['C11'] = dict(
+    text="Schedule-free static rules: root completeness by type (every Object-owning member is a marking root over its full range; "
+         "marking follows every Object reference), conservative-root step of the collector (traced-reference count over exactly the "
+         "root set, compared with use_count, dominating the sweep), timer-thread effect set restricted to atomics/mutex/condvar, "
+         "stop+notify+join ordering in the destructor and before the final collection. Holds for every schedule because the rules "
+         "quantify over 'a collection may happen at any call site'.",
+    note=TB + "Assumes std::shared_ptr::use_count is exact on the interpreter thread (the timer thread never touches Objects — checked "
+         "by R11.3). Does not decide memory-model questions beyond 'only atomics are shared'.",
+    tech="static analysis: type-driven root completeness, structural recognition of the conservative-root design, thread effect-set (who-touches) analysis, CFG ordering")
+
 NOT_YET = "check not yet built in this round (framework under construction; see DESIGN.md §4 for the planned static rules)"
 
 
